@@ -197,6 +197,28 @@ PROPS = {
         "floors": {"timeseries": 500, "protected": 400},
         "thorough_shards": 8,
     },
+    "C03": {
+        "harness": "c03", "driver": "c03",
+        "lean_modules": ["BleveModel.Props.Snapshot", "BleveModel.Props.C04", "BleveModel.Props.C03"],
+        "rule": ("on-disk scorch workloads (safe and unsafe_batch; 1-3 snapshots kept; persister with 1, 2 or 3 workers and in-memory "
+                 "merge thresholds, nap settings; small merge plan so that file merges and purges happen): a child process writes "
+                 "batches (batch n sets 2-3 fixed documents and the internal key to n, makes n%3 of two extra documents present, "
+                 "writes ring slot n%6) and is SIGKILLed at a named crash point (files written / before commit / after commit / "
+                 "after sync / in-memory merge done / merge file written / merge introduced / snapshot purged / file removed, at a "
+                 "random occurrence 1-6), at a random wall-clock instant, or closes cleanly; several kill/reopen cycles per index. "
+                 "(a) every durable event the real code reports (commit with the on-disk state of each named file, acknowledgement "
+                 "= Batch returned (safe) or persisted callback fired (unsafe), snapshot removal, file removal) is replayed through "
+                 "the Lean side condition stepOK; (b) after each kill the segment files no committed snapshot names are left / "
+                 "truncated / overwritten with garbage / emptied, the index is reopened, read through one reader and judged by the "
+                 "Lean monitor History.check: a whole-batch prefix covering every acknowledged batch, never older than the "
+                 "previous recovery; a search must agree; the next cycle writes on. non-trivial = every event and observation"),
+        "trusted_base": COMMON_TB + ["SIGKILL of the writer process stands for the crash; the page cache survives it (fsync, rename and bbolt commit "
+                                     "atomicity are assumptions); bbolt for reading root.bolt in the harness"],
+        "assumptions": ["partial: OS durability guarantees (fsync, atomic bbolt commit) are assumed, garbling of unreferenced files stands in "
+                        "for power loss; the index is created before the first kill", LEVEL_NOTE],
+        "floors": {"safe/event-commit": 100, "safe/event-zaprm": 10, "safe/event-boltrm": 20, "safe/recovered": 8, "unsafe/recovered": 3},
+        "thorough_shards": 8,
+    },
     "C04": {
         "harness": "c04", "driver": "c04",
         "lean_modules": ["BleveModel.Props.Snapshot", "BleveModel.Props.C04"],
